@@ -29,12 +29,26 @@ var curValMask uint32
 
 func isVal(t int) bool { return t >= 0 && t < NumK && curValMask&(1<<uint(t)) != 0 }
 
+// curAltMask: bit p set = universe position p is realised as the type
+// K<(p+1) mod 16> of package digsim/altsim, whose String() equals that of this
+// package's type at the next position (Config.AltMask; set by NewWorld).
+var curAltMask uint32
+
+func isAlt(t int) bool {
+	return t >= 0 && t < NumK && curAltMask&(1<<uint(t)) != 0 && !isVal(t)
+}
+
+func altIndex(t int) int { return (t + 1) % NumK }
+
 func TypeName(t int) string {
 	if IsSliceT(t) {
 		return "[]" + TypeName(t-TSlice)
 	}
 	if isVal(t) {
 		return fmt.Sprintf("sim.V%d", t)
+	}
+	if isAlt(t) {
+		return fmt.Sprintf("*sim.K%d", altIndex(t)) // prints like the main package's next type
 	}
 	if IsIface(t) {
 		return fmt.Sprintf("sim.I%d", t-TIface)
@@ -146,6 +160,7 @@ type Func struct {
 	OptFlatten bool   `json:"opt_flatten,omitempty"` // Group("g,flatten")
 	OptAs      []int  `json:"opt_as,omitempty"`      // interface numbers
 	Export     bool   `json:"export,omitempty"`
+	OptNoise   bool   `json:"opt_noise,omitempty"` // every Provide option is preceded by the same option with another value (the last one wins)
 	Callback   bool   `json:"callback,omitempty"`
 	Info       bool   `json:"info,omitempty"`
 	LocPC      bool   `json:"loc_pc,omitempty"`     // Provide with LocationForPC(<another declared function>): the ID must still be this function's
@@ -466,6 +481,7 @@ type Config struct {
 	ShuffleSeed int64  `json:"shuffle_seed"`
 	PanicKind   int    `json:"panic_kind"`         // 0 struct value, 1 error value, 2 string, 3 error value wrapping a dig error
 	ValMask     uint32 `json:"val_mask,omitempty"` // universe positions realised as struct values V<i> (dynamic stubs only)
+	AltMask     uint32 `json:"alt_mask,omitempty"` // universe positions realised as same-named types of package digsim/altsim (dynamic stubs only)
 }
 
 // History is everything a run depends on. It is the replay file.
@@ -502,8 +518,11 @@ func (h *History) NumScopes() int {
 
 func (h *History) Describe() []string {
 	var out []string
-	defer func(m uint32) { curValMask = m }(curValMask)
-	curValMask = h.Cfg.ValMask
+	defer func(m, a uint32) { curValMask, curAltMask = m, a }(curValMask, curAltMask)
+	curValMask, curAltMask = h.Cfg.ValMask, h.Cfg.AltMask
+	if h.Cfg.AltMask != 0 {
+		out = append(out, fmt.Sprintf("universe positions realised by same-named types of another package: mask %#x", h.Cfg.AltMask))
+	}
 	if h.Cfg.ValMask != 0 {
 		out = append(out, fmt.Sprintf("struct-valued universe positions: mask %#x", h.Cfg.ValMask))
 	}
